@@ -80,3 +80,50 @@ Definition pcs_of (c : pcfg) : list (tid * ppc) := map (fun x => (fst x, pc (snd
 
 Definition par (init core mx cap rn rd : Z) : params := mkPar init core mx cap rn rd true true 100%nat.
 Definition par_pinned (init core mx cap rn rd : Z) (fa fb : bool) : params := mkPar init core mx cap rn rd fa fb 100%nat.
+
+(* ---------------------------------------------------------------- the schedules of the two repaired defects *)
+Local Open Scope nat_scope.
+
+(* (a) C10: initGo 1, coreGo 2, maxGo 3, queue 3.  Three tasks queued before Start (three workers), three
+   more submitted while they run.  W1 (tid 100) and W2 (101) finish while len(queue) = 3 >= totalGo and are
+   given idle timers; they are descheduled before their select.  W3 (102) finishes, takes task 3, finishes
+   again with len(queue) = 2 < totalGo = 3 and reaches the above-core test. *)
+Definition wit_vanish_P := par 1 2 3 3 0 1.
+Definition wit_vanish_P_pinned := par_pinned 1 2 3 3 0 1 false true.
+Definition wit_vanish_prefix :=
+  [DCall 1 (OpSubmit 0 false); DRun 1 100; DCall 1 (OpSubmit 1 false); DRun 1 100; DCall 1 (OpSubmit 2 false); DRun 1 100;
+   DCall 2 OpStart; DRun 2 300;
+   DRunTo 100 WUser; DRunTo 101 WUser; DRunTo 102 WUser;
+   DCall 1 (OpSubmit 3 false); DRun 1 100; DCall 1 (OpSubmit 4 false); DRun 1 100; DCall 1 (OpSubmit 5 false); DRun 1 100;
+   DFinish 100; DRunTo 100 WSelect;
+   DFinish 101; DRunTo 101 WSelect;
+   DFinish 102; DRunTo 102 WSelect; DRunTo 102 WUser;
+   DFinish 102; DRunTo 102 WBkIf1].
+(* before the fix: W3 leaves by the above-core rule, the two timers fire, both selects take the timer case:
+   totalGo = 0 in state running with tasks 4 and 5 queued *)
+Definition wit_vanish_pinned_tail :=
+  [DRun 102 10; DFire 100; DFire 101; DPick 100 CTimer; DRun 100 40; DPick 101 CTimer; DRun 101 40].
+(* now: W3 stays (initGo < totalGo - |timeoutGroup| fails), drains the queue; W1 and W2 park, time out and
+   leave; a graceful Shutdown then completes through W3 *)
+Definition wit_vanish_fixed_tail :=
+  [DRunTo 102 WSelect; DRunTo 102 WUser; DFinish 102; DRunTo 102 WSelect; DRunTo 102 WUser; DFinish 102; DRunTo 102 WSelect;
+   DRun 100 1; DRun 101 1; DFire 100; DRun 100 40; DFire 101; DRun 101 40;
+   DRun 102 1;
+   DCall 3 OpShutdown; DRun 3 40; DRun 102 60].
+
+(* (b) C12: initGo 1, coreGo = maxGo 2, queue 2.  Two workers; W1 (100) gets an idle timer, both park on the
+   empty queue; W1's timer fires (it is committed to the idle-timer exit); Shutdown closes the queue; W2 sees
+   it (totalGo 2 -> 1, not the last); W1 brings totalGo to 0.  Before the fix it returned without the
+   closing->stopped transition (state closing for ever, done never closed); now it performs it. *)
+Definition wit_hang_P := par 1 2 2 2 0 1.
+Definition wit_hang_P_pinned := par_pinned 1 2 2 2 0 1 true false.
+Definition wit_hang :=
+  [DCall 1 (OpSubmit 0 false); DRun 1 100; DCall 1 (OpSubmit 1 false); DRun 1 100;
+   DCall 2 OpStart; DRun 2 300;
+   DRunTo 100 WUser; DRunTo 101 WUser;
+   DFinish 100; DRunTo 100 WParked;
+   DFinish 101; DRunTo 101 WParked;
+   DFire 100;
+   DCall 3 OpShutdown; DRun 3 40;
+   DRun 101 60;
+   DRun 100 60].
